@@ -24,6 +24,7 @@ Definition genv : env := {|
   adverbs := adverbs_tbl;
   adverb_arity := lookup_arity adverb_arity_tbl;
   reserved := reserved_tbl;
+  arity_monad_operand := arity_scans_monad_operand;
   modname := None;
   comment_guard := comment_guard_present
 |}.
@@ -32,10 +33,10 @@ Definition genv : env := {|
 Definition env_with_guard (E : env) (g : bool) : env := {|
   isspace := isspace E; isnumeric := isnumeric E; isalpha := isalpha E; isdigit := isdigit E;
   num_ok := num_ok E; delims := delims E; monads := monads E; dyads := dyads E; adverbs := adverbs E;
-  adverb_arity := adverb_arity E; reserved := reserved E; modname := modname E; comment_guard := g |}.
+  adverb_arity := adverb_arity E; reserved := reserved E; arity_monad_operand := arity_monad_operand E; modname := modname E; comment_guard := g |}.
 
 (* the same environment with the module in which the text is parsed *)
 Definition env_with_module (E : env) (m : option str) : env := {|
   isspace := isspace E; isnumeric := isnumeric E; isalpha := isalpha E; isdigit := isdigit E;
   num_ok := num_ok E; delims := delims E; monads := monads E; dyads := dyads E; adverbs := adverbs E;
-  adverb_arity := adverb_arity E; reserved := reserved E; modname := m; comment_guard := comment_guard E |}.
+  adverb_arity := adverb_arity E; reserved := reserved E; arity_monad_operand := arity_monad_operand E; modname := m; comment_guard := comment_guard E |}.
